@@ -14,6 +14,10 @@ def run(ctx, model_ok):
     budget = 3 if len(ctx.broken) else 1
     fails, ost = oracle.sweep(ctx, ctx.scale(1, 12) * budget)
     ctx.failing += fails
+    from oracles import c17_fieldfunc
+    ff_fails, ff_stats = c17_fieldfunc.sweep(ctx)
+    ctx.failing += ff_fails
+    ctx.cov['oracle_field_func'] = ff_stats
     ctx.cov["oracle"] = ost
     ctx.cov["evaluations"] = ost["c17_assignments"]
     ctx.cov["distinct_nontrivial"] = ost["c17_assignments"] // 2
@@ -26,23 +30,27 @@ def run(ctx, model_ok):
         ctx.cov["evaluations"] += st["cases"]
         ctx.cov["distinct_nontrivial"] += st["distinct"]
         ctx.cov["traces_validated_against_impl"] += st["cases"]
-        ctx.cov["rule"] += ("; valid stream: every validator command x fixed boundary values, plus random values of the PyVal grammar (None, bool, numpy.bool_, "
+        ctx.cov["rule"] += ("; valid stream: every validator command (incl. start, degrees, field, output, anchor, angle, axis, orientation) x fixed boundary values, plus random values of the PyVal grammar (None, bool, numpy.bool_, "
                             "complex, strings, objects, int/float/numpy scalars, nested lists/tuples incl. ragged and empty, ndarrays incl. 0-d and empty) "
                             "aimed at each validator's documented shape with one defect; distinct = (validator, result, value) triples")
         ctx.cov["samples"] = st.pop("samples") + ctx.cov["samples"]
-    ctx.cov["not_shown"] = ["orientation, field_func, style arguments: grammar oracle only",
-                            "np.array(dtype=float) is an assumed external function (Model/Validators.lean header): non-integer floats, inf, strings like '1e3' that "
-                            "float() parses, bytes, objects with __float__/__array__, nestings deeper than numpy's axis limit are outside the modelled grammar",
-                            "full-strength 'never a foreign error' is false of the faithful model for check_format_input_vector2 (ValueError, pinned by a test): "
-                            "stated as witness vector2_bad_shape_is_foreign and recorded as a known finding; complex scalars were repaired in /repo (scalar_never_foreign)",
-                            "'documented format' in the *_accepts_iff_documented theorems is Spec/ValidSpec.lean, whose entry grammar (isEntry) follows np.array(dtype=float): a None entry (stored "
-                            "as nan, passing the 'no value <= 0' test) and numeric strings count as documented there although the docstrings speak of numbers only "
-                            "(theorem documented_includes_coerced_entries; known findings coerced-entry:None / coerced-entry:numeric-string)",
+    ctx.cov["not_shown"] = ["field_func, style arguments, in_out / check_* mode strings of TriangularMesh: grammar oracle only; pixel_agg (which numpy names are reductions) is not modelled: "
+                            "observed — foreign AttributeError / TypeError for bad names (pinned by tests/test_getBH_level2.py), 'any'/'all' refused, 'argmax'/'ndim'/'size' accepted",
+                            "np.array(x) / np.array(arr, dtype=float) are assumed external functions (Model/Validators.lean header): non-integer floats, inf, bytes, integers beyond int64, "
+                            "Fraction/Decimal (object dtype holding numbers only), object-dtype ndarrays, objects with __array__, nestings deeper than numpy's axis limit are outside the "
+                            "modelled grammar (object ndarrays with None rows / None entries are refused by the code for every attribute, Polyline.vertices included: oracle values)",
+                            "full-strength 'never a foreign error' is false of the faithful model for check_format_input_vector2 (ValueError, pinned by a test: witness vector2_bad_shape_is_foreign, "
+                            "known finding), check_getBH_output_type (ValueError, pinned by a test: output_rejection_is_foreign) and check_format_input_angle (TypeError for a complex number: "
+                            "angle_complex_is_foreign); complex scalars were repaired in /repo (scalar_never_foreign)",
+                            "'documented format' in the *_accepts_iff_documented theorems is Spec/ValidSpec.lean; its entry grammar (isEntry) is: numbers (int, float, bool, numpy.bool_, float nan). "
+                            "A nan given as a float is accepted everywhere (passes 'no value <= 0', '>= 0' and all five CylinderSegment conditions: cylseg_accepts_nan, scalar_accepts_nan); "
+                            "check_format_input_anchor also accepts the empty (0,3) array (anchor_accepts_empty)",
                             "constructor path = setter path (constructors assign through the same setters: valid stream only), and 'no accepted object later fails inside a field computation "
                             "with an internal error' (check_dimensions / check_excitations, nan dimensions reaching the kernels): oracle only",
                             "rejected-assignment theorems are about setters of the form validate-then-assign (setAttrWith); that every real setter has this form is regenerated for Sensor.pixel / "
-                            "Sensor.handedness (Attr.skeleton) and observed for the others by the valid stream's state comparison (BaseMagnet.polarization also writes _magnetization)"]
-
+                            "Sensor.handedness (Attr.skeleton) and observed for the others by the valid stream's state comparison (BaseMagnet.polarization also writes _magnetization)",
+                            "start / degrees / anchor / angle / axis / orientation / field / output are modelled as the validator functions; that move, rotate*, getB call them on the argument before "
+                            "touching any path is the subject of C09 (path stream incl. rejected calls)"]
 
 def replay(ctx, payload):
     import json
